@@ -1113,8 +1113,13 @@ func C10() *kit.Spec {
 				if kind == "c128" {
 					start := 103 + r.Intn(3)
 					vals = []int{start}
+					special := r.Chance(1, 6) // also the function / shift / code-set values 96..102
 					for i := 0; i < n; i++ {
-						vals = append(vals, r.Intn(96)) // printable / digit pairs in any code set
+						v := r.Intn(96) // printable / digit pairs in any code set
+						if special && r.Chance(1, 4) {
+							v = 96 + r.Intn(7)
+						}
+						vals = append(vals, v)
 					}
 					vals = append(vals, ref.Code128Check(vals))
 					// Code 128 writer input: printable text, digit runs (code set C),
